@@ -10,7 +10,7 @@ import vlib
 # ---- tier constants -------------------------------------------------------------------------
 K_MODEL = {"quick": dict(MaxN=3, Coords="{0, 1, 2}", Dim=2, NMeth=5), "thorough": dict(MaxN=4, Coords="{0, 1, 2}", Dim=2, NMeth=5)}
 K_GEN = {"quick": dict(MaxN2=4, MaxN1=4, MaxN3=3, Stride=3), "thorough": dict(MaxN2=5, MaxN1=5, MaxN3=4, Stride=1)}
-K_INVS = ["InvFrac", "InvSym", "InvGaussDiag", "InvGaussRange", "InvGaussMono", "InvGaussPSD", "InvLinearPSD", "InvPolyLinear",
+K_INVS = ["InvFrac", "InvShift", "InvSym", "InvGaussDiag", "InvGaussRange", "InvGaussMono", "InvGaussPSD", "InvLinearPSD", "InvPolyLinear",
           "InvPatFull", "InvPatMin", "InvPatUnique", "InvPatOneSided", "InvPatKPlus", "InvViews"]
 K_TRACE_CONST = dict(MaxN=0, Coords="{}", Dim=0, NMeth=0)
 
@@ -51,7 +51,8 @@ def random_kernel_cases(ctx, count):
             meth["d"] -= meth["dd"]  # keep every sum of (dot+c)^d * 10^4 inside TLC's 32-bit integers (coordinates >= 0: base >= 0)
         rhs = [[r.randint(-2, 2), r.randint(-2, 2)] for _ in range(n)]
         pd = r.choice([1, 1, 2])
-        out.append({"kind": "kernel", "inp": {"pts": pts, "meth": meth, "k": k, "rhs": rhs, "pd": pd}})
+        off = r.randint(0, 3) if meth["name"] == "gauss" else 0     # shifted records: shift-invariant kernel only
+        out.append({"kind": "kernel", "inp": {"pts": pts, "meth": meth, "k": k, "rhs": rhs, "pd": pd, "off": off}})
     return out
 
 
@@ -81,7 +82,7 @@ def random_hier_cases(ctx, count):
                 for j in range(i + 1, n):
                     dk[i][j] = dk[j][i] = r.choice(vals)
             hs = sorted(r.sample(range(0, 42), 4))
-            out.append({"kind": "hier", "inp": {"src": "expmat", "dk": dk, "qd": 4, "pts": [], "pd": 1, "meth": none, "link": link,
+            out.append({"kind": "hier", "inp": {"src": "expmat", "dk": dk, "qd": 4, "pts": [], "pd": 1, "off": 0, "meth": none, "link": link,
                                                  "f32": r.random() < 0.25, "crits": hier_crits(n, hs, 4)}})
         else:
             n = r.randint(5, 8)
@@ -96,7 +97,7 @@ def random_hier_cases(ctx, count):
                 en, ed = 5, 1
             hs = sorted(r.sample(range(0, maxd + 2), 4))
             hs = [h for h in hs if not (135 * 101 * en < 10 * (101 * h + 37) < 141 * 101 * en)]
-            out.append({"kind": "hier", "inp": {"src": "pts", "dk": [], "qd": 1, "pts": pts, "pd": 1,
+            out.append({"kind": "hier", "inp": {"src": "pts", "dk": [], "qd": 1, "pts": pts, "pd": 1, "off": r.randint(0, 3),
                                                  "meth": {"name": "gauss", "en": en, "ed": ed, "c": 0, "d": 0, "dd": 1}, "link": link,
                                                  "f32": r.random() < 0.25, "crits": hier_crits(n, hs, en)}})
     return out
